@@ -28,7 +28,7 @@ MOD = 'cirbo.synthesis.generation.arithmetics.summation'
 
 
 def shards(tier, seed):
-    per = 250 if tier == 'quick' else 1500
+    per = 250 if tier == 'quick' else 15000
     budget = 50 if tier == 'quick' else 560
     return [{'kind': 'random', 'count': per, 'budget_s': budget, 'max_n': 16 if tier == 'quick' else 40} for _ in range(16)]
 
